@@ -20,8 +20,9 @@ EXTERNAL = {
     # the Python tokenizer, consumed eagerly by _tools.generated_tokens: unterminated strings, stray brackets and
     # backslashes give TokenError; inconsistent indentation in multi-line cells gives IndentationError/TabError
     # CPython 3.12: a carriage return directly followed by a non-ASCII character makes the tokenizer decode half a
-    # character: UnicodeDecodeError
-    "tokenize.generate_tokens": ("tokenize.TokenError", "builtins.SyntaxError", "builtins.UnicodeDecodeError"),
+    # character: UnicodeDecodeError; the 3.12 tokenizer encodes the line as UTF-8, which a lone surrogate ('\ud800', a
+    # legal Python str that the API can be given) refuses: UnicodeEncodeError
+    "tokenize.generate_tokens": ("tokenize.TokenError", "builtins.SyntaxError", "builtins.UnicodeDecodeError", "builtins.UnicodeEncodeError"),
     # encoding property: unknown name -> LookupError; a name with an embedded NUL or a lone surrogate -> ValueError
     "codecs.lookup": ("builtins.LookupError", "builtins.ValueError"),
     # DateTime cells; a format with the same directive twice (rule DD.DD) makes _strptime compile a regex with a
